@@ -115,6 +115,11 @@ class Ctx:
         self.drivers = {}
         self.theorem_axioms = {}
 
+    def reseed(self, seed):
+        """start a further search round with fresh random choices (source sentinel, check.py)"""
+        self.seed = seed
+        self.rng = random.Random(f"{seed}/{self.pid}")
+
     # ---- bookkeeping used by property modules
     def sub_rng(self, *key):
         return random.Random(f"{self.seed}/{self.pid}/" + "/".join(map(str, key)))
